@@ -19,8 +19,15 @@ C07  max_advance is a sound promise.
                   ones the property allows ("traceable to its own output or self-schedule"); the
                   finer statement that a step inside the window caused by an own output lies at or
                   after that output's time is decided by the taint monitor on the traces.
+`promise_run_traceable` : the run form at full strength, for ANY continuation.  `taintRun` collects the steps
+                  that are traceable to the simulator itself: scheduled by its own returned next step or by an
+                  output of one of its steps, or — transitively — by the returned next step or an output of a
+                  step that is itself traceable.  From the state in which the request went out, along every
+                  run, every step the simulator has in flight with a time in `(t, m]`, and every step scheduled
+                  for it at a time `≤ m`, is traceable to the simulator itself.
 -/
 import MosaikProofs.Sched.Shield
+import MosaikProofs.Sched.Taint
 import MosaikProofs.Properties.C01
 namespace Mosaik.C07
 open Mosaik
@@ -206,6 +213,52 @@ theorem promise_run {cfg : Cfg} (hw : WFCfg cfg) {s : State} (hr : Reach cfg s) 
       · omega
     · intro x hx _
       exact hsh.own x hx
+
+/-- **C07, run form at full strength.**  `s` is a reachable state in which `p` has the step `c` in flight (the request
+`step(t, inputs, max_advance = m)` has just gone out); `as` is ANY continuation.  Then every step `p` has in flight
+afterwards with a time in `(t, m]`, and every step scheduled for `p` at a time `≤ m`, is traceable to `p` itself:
+it is in `taintRun cfg p [] s as`, the set of steps scheduled — directly or through other simulators' steps — by
+next-step times `p` returned and outputs `p` produced from the step `c` on. -/
+theorem promise_run_traceable {cfg : Cfg} (hw : WFCfg cfg) {s : State} (hr : Reach cfg s) (hf : s.failed = none) {p : Sid}
+    (hp : p < cfg.n) {c : TT} (hcur : (s.sims p).cur = some c) (as : List Action) {s' : State} (he : exec cfg s as = some s') :
+    (∀ x, (s'.sims p).cur = some x → TT.time c < TT.time x → TT.time x ≤ maxAdvance cfg s p c →
+      (p, x) ∈ taintRun cfg p [] s as) ∧
+    (∀ x ∈ (s'.sims p).next, TT.time c < maxAdvance cfg s p c → TT.time x ≤ maxAdvance cfg s p c →
+      (p, x) ∈ taintRun cfg p [] s as) := by
+  by_cases hwin : maxAdvance cfg s p c = TT.time c
+  · constructor
+    · intro x _ h1 h2; omega
+    · intro x _ h1 _; omega
+  · have hsh := shieldT_exec hw hp as (ShieldT.of_shield (shield_at_promise hw ((reach_good hw hr) hf).1 hp hcur hwin)) he
+    constructor
+    · intro x hx h1 h2
+      rcases hsh.pcur x hx with h3 | h3 | h3
+      · subst h3; omega
+      · omega
+      · exact h3
+    · intro x hx _ h2
+      rcases hsh.own x hx with h3 | h3
+      · omega
+      · exact h3
+
+/-- what "traceable" means, one action at a time: the taint grows exactly by the steps that a returned next step or the
+outputs of a step of `p`, or of an already traceable step, schedule -/
+theorem traceable_rule (cfg : Cfg) (p : Sid) (T : Taint) (s : State) (q : Sid) (c : TT) (d : DataReply)
+    (hcur : (s.sims q).cur = some c) (hq : q = p ∨ (q, c) ∈ T) (tr : Port × Sid × TI) (htr : tr ∈ (cfg.sim q).triggers)
+    (hhas : OutData.has d.data tr.1 = true) :
+    (tr.2.1, TI.act (outTimeOf c d).2 tr.2.2) ∈ taintStep cfg p T s (.dataReply q d) := by
+  unfold taintStep
+  simp only [hcur, hq, if_true]
+  apply List.mem_append_left
+  rw [List.mem_map]
+  exact ⟨tr, by rw [List.mem_filter]; exact ⟨htr, hhas⟩, rfl⟩
+
+/-- … and nothing else: an action whose cause is neither `p` nor traceable adds nothing -/
+theorem untraceable_adds_nothing (cfg : Cfg) (p : Sid) (T : Taint) (s : State) (q : Sid) (c : TT) (d : DataReply)
+    (hcur : (s.sims q).cur = some c) (hq : ¬ (q = p ∨ (q, c) ∈ T)) :
+    taintStep cfg p T s (.dataReply q d) = T ∧ ∀ r, taintStep cfg p T s (.stepReply q r) = T := by
+  unfold taintStep
+  simp [hcur, hq]
 
 /-! non-vacuity of `promise_run`: in the two-simulator configuration A → B (trigger connection), A steps at 0
 and announces its next step for 3; B's step at 0 goes out with `max_advance = 2`; in the quiet continuation
